@@ -117,6 +117,7 @@ CHECKS = {
         props=['C11', 'C08'], opts='props=0',
         quick=[mc(1, [1, 6], [], ['add_edge', 'add_face'], Modes='ModesDefault', BUSets='BUTwo', MaxList=3),
                mc(1, [1, 5], [], ['add_cell'], Modes='ModesDefault', BUSets='BUTwo', MaxList=4),
+               mc(1, [3, 9, 10], [], ['add_cell'], Modes='ModesDefault', BUSets='BUOn', MaxList=3),
                mc(2, [2, 6], DEL, ['add_edge', 'add_cell_closed', 'add_face_v'], Modes='ModesTwo', BUSets='BUTwo', MaxList=3)],
         thorough=[mc(2, [1, 6], DEL, ['add_edge', 'add_face'], Modes='ModesTwo', BUSets='BUTwo', MaxList=3),
                   mc(2, [1, 5, 2], ['delete_cell'], ['add_cell'], Modes='ModesDefault', BUSets='BUTwo', MaxList=4),
